@@ -50,6 +50,9 @@ CHECKS = {
  "C07": dict(cat="exploration", ref="4/C07", tech="property-based testing against an independent argument binder: generated signatures (as real source text) x callback kinds x call shapes, observed locals() vs expected binding; colliding-name families for cache independence",
    text="Signatures covering every ordering of positional-only, positional-or-keyword, defaulted, *args, keyword-only and **kwargs parameters with names drawn from the built-ins and user names are compiled from source as methods (machine/model/listener), free functions, partials, functools.wraps-decorated methods and coroutines, attached to every callback group and called with 0-4 positional arguments and keyword sets containing reserved names with decoy values, directly and forwarded by a parent callback. The locals() each callback records are compared with an independent 40-line binder (built-ins by identity). Callables sharing __name__/__qualname__/parameter names across unrelated classes are used alternately to show the binding depends on the callable's own signature only.",
    note="Trusted: the oracle binder (pairing rule pinned by tests/test_signature.py). The deliberately raised TypeError for a keyword matching an unfilled positional-only parameter is outside the generated domain."),
+ "C15": dict(cat="exploration", ref="4/C15", tech="metamorphic / differential property testing: one generated abstract machine rendered in 2-4 generated declaration plans; every rendering vs the reference interpreter and vs each other",
+   text="An abstract machine is rendered through independently drawn declaration plans (to / from_ / to.itself / multi-target / multi-source / from_.any / class-attribute events combined with | in either association / explicit Event objects / event= as string, list or Event; states as attributes, States({...}) or States.from_enum; base class + empty subclass). Every rendering must follow the reference interpreter on the same history and valuations, and all must expose identical states, event sets and per-state allowed-event sets.",
+   note="Trusted: reference interpreter. from_.any() only where it cannot change candidate order; exception messages not compared."),
 }
 def main():
     checks = []
